@@ -776,7 +776,10 @@ def run(shard, rec, rng):
 
     IFR = [None, (True, '"x"'), (False, '"y"'), (True, http_date(T0)), (False, http_date(T0 - timedelta(seconds=5))), (False, "garbage"),
            # an entity tag is opaque: a quoted star or a comma inside the quotes is one tag like any other
-           (False, '"*"'), (False, '"y, x"'), (False, '"x, y"'), (True, '"x, y"', '"x, y"'), (True, '"*"', '"*"'), (False, '"x"', '"*"')]
+           (False, '"*"'), (False, '"y, x"'), (False, '"x, y"'), (True, '"x, y"', '"x, y"'), (True, '"*"', '"*"'), (False, '"x"', '"*"'),
+           # a tag whose text reads like a date (an application tagging with the modification time): still a tag
+           (False, 'W/"' + http_date(T0 + timedelta(days=1)) + '"'), (False, '"' + http_date(T0 + timedelta(days=1)) + '"'), (False, ' W/"' + http_date(T0) + '"'),
+           (True, '"' + http_date(T0) + '"', '"' + http_date(T0) + '"')]
     for L in range(0, cfg["maxlen"] + 1):
         for h in RH:
             for supply in ("list", "listempty", "gen", "fw", "fwns"):
